@@ -109,7 +109,9 @@ fn rand_ops(r: &mut ChaChaRng, b: &mut B, m: i64, nops: usize, in_cb: bool, ncbs
                 b.nchal += 1;
                 Op::Chal { label: ["c", "shuffle challenge", "z"][r.gen_range(0..3)].to_string() }
             }
-            93..=94 => Op::Len,
+            93 => Op::Len,
+            // a constraint without any term (e.g. the sum over an empty set of wires): trivially true, but it occupies a position
+            94 => Op::Con { lc: vec![], fix: None, delta: None, split: None },
             95 if in_cb && allow_bad => {
                 if r.gen_bool(0.5) { Op::Fail } else { Op::Alloc { a: None } }
             }
@@ -133,7 +135,8 @@ pub fn gen_program(r: &mut ChaChaRng, m: i64, kind: &str, id: String) -> Program
     let mut b = B { nv: 0, pending: None, ncommit: 0, nchal: 0, nfix: 0 };
     let mut cbs: Vec<Vec<Op>> = vec![];
     let allow_bad = kind == "free";
-    let nops = r.gen_range(0..9);
+    // (the combiner attack only bites where no later challenge depends on the two scalars: at most one gate)
+    let nops = if kind == "rcraft" { r.gen_range(0..4) } else { r.gen_range(0..9) };
     let mut ops = rand_ops(r, &mut b, m, nops, false, &mut cbs, allow_bad);
     let n1 = b.nv;
     // phase switch: pending cleared
@@ -192,7 +195,7 @@ pub fn gen_program(r: &mut ChaChaRng, m: i64, kind: &str, id: String) -> Program
             }
             expect_v = "reject".into();
         }
-    } else if kind == "honest" || kind == "tamper" || kind == "tamper2" || kind == "surplus" {
+    } else if kind == "honest" || kind == "tamper" || kind == "tamper2" || kind == "surplus" || kind == "rcraft" {
         expect_v = "ok".into();
     }
     let cap_need = pad2(n);
@@ -230,6 +233,11 @@ pub fn gen_program(r: &mut ChaChaRng, m: i64, kind: &str, id: String) -> Program
         if r.gen_bool(0.3) {
             tamper.push(Edit::Add { f: "a".into(), v: nzval(r, m) });
         }
+        expect_v = "reject".into();
+    }
+    if kind == "rcraft" {
+        // the combiner attack on the two blinding scalars (see Edit::Rshift); small circuits, where no later challenge depends on them
+        tamper.push(Edit::Rshift { d: nzval(r, m) });
         expect_v = "reject".into();
     }
     if kind == "tamper" {
